@@ -297,7 +297,8 @@ class Check:
         with open(path, "w") as f:
             json.dump({"property": self.pid, "key": key, "what": what, "tier": self.tier,
                        "seed": self.seed, "case": replay_obj}, f, indent=1, default=str)
-        self.violations.append({"key": key, "what": what, "replay": path})
+        if path not in [v["replay"] for v in self.violations]:
+            self.violations.append({"key": key, "what": what, "replay": path})
         return True
 
     def finish(self, rule, extra_cov=None, level="model_checking"):
